@@ -568,8 +568,10 @@ func (nl *NodeList) Equal(nl2 *NodeList) bool {
 	}
 
 	// Compare the flattened rootElements list
-	r1 := nl.RootElements
-	r2 := nl2.RootElements
+	r1 := make([]string, len(nl.RootElements))
+	copy(r1, nl.RootElements)
+	r2 := make([]string, len(nl2.RootElements))
+	copy(r2, nl2.RootElements)
 	sort.Strings(r1)
 	sort.Strings(r2)
 	if !reflect.DeepEqual(r1, r2) {
